@@ -57,6 +57,10 @@ def apply_op(env, op, toks):
         if op[2] >= len(toks) or toks[op[2]] is None:
             return False
         env.send(op[1], toks[op[2]], op[3], op[4], probe=(len(op) > 5 and op[5]))
+    elif k == "send_close":
+        if op[2] >= len(toks) or toks[op[2]] is None:
+            return False
+        env.send(op[1], toks[op[2]], op[3], op[4], then_close=True)
     elif k == "close":
         if op[2] >= len(toks) or toks[op[2]] is None:
             return False
@@ -205,8 +209,15 @@ def random_ops(r, cfg):
                         shifted.add(i)
                         do(("sseq", i, 0))
             if pending_create and (x < 0.15 or not live):
-                e, spec = pending_create.pop(0)
-                do(("create", e, spec))
+                e, spec = pending_create[0]
+                closing = any(c[sd] is not None and c[sd].readyState == "closing"
+                              for c in env.chan.values() for sd in "AB")
+                if spec.get("label") == "again" and closing and r.random() < 0.9:
+                    # reuse of a freed id: normally only once the closed channel is closed at both ends
+                    net_action()
+                else:
+                    pending_create.pop(0)
+                    do(("create", e, spec))
             elif x < cfg.p_app and live and nmsgs < cfg.max_msgs:
                 i = r.choice(live)
                 c = env.chan[toks[i]]
@@ -229,7 +240,20 @@ def random_ops(r, cfg):
                 c = env.chan[toks[i]]
                 sides = [s for s in "AB" if c[s] is not None]
                 if sides:
-                    do(("close", r.choice(sides), i))
+                    e = r.choice(sides)
+                    y = r.random()
+                    if c[e].readyState == "open" and y < 0.25:
+                        # close() with a backlog still waiting behind the congestion window
+                        for _ in range(r.randint(3, 7)):
+                            do(("send", e, i, 1200, "bytes"))
+                        do(("close", e, i))
+                    elif c[e].readyState == "open" and y < 0.45:
+                        do(("send_close", e, i, r.choice([10, 1200, 3000]), "bytes"))
+                    else:
+                        do(("close", e, i))
+                    if r.random() < 0.6 and len(toks) < 8:
+                        # ... and the freed id is used again by a new channel later on
+                        pending_create.append((r.choice("AB"), dict(label="again", protocol="", ordered=True)))
             elif cfg.p_thr and cfg.p_app + cfg.p_close <= x < cfg.p_app + cfg.p_close + cfg.p_thr and live:
                 i = r.choice(live)
                 c = env.chan[toks[i]]
